@@ -205,7 +205,7 @@ func (pd *perRawBitData) appendBitString(bytes []byte, bitsLength uint64, extens
 
 	var byteOffset, partOfRawLength uint64
 	for {
-		if rawLength > 65536 {
+		if rawLength >= 65536 {
 			partOfRawLength = 65536
 		} else if rawLength >= 16384 {
 			partOfRawLength = rawLength & 0xc000
@@ -227,7 +227,8 @@ func (pd *perRawBitData) appendBitString(bytes []byte, bitsLength uint64, extens
 		perTrace(2, fmt.Sprintf("Encoded BIT STRING (length = %d): 0x%0x", partOfRawLength,
 			bytes[byteOffset:byteOffset+sizes]))
 		rawLength -= (partOfRawLength - uint64(lb))
-		if rawLength > 0 {
+		if rawLength > 0 || partOfRawLength-uint64(lb) >= 16384 {
+			// X.691 11.9.3.8: a fragment is always followed by a further length, 0 when nothing is left
 			byteOffset += sizes
 		} else {
 			pd.bitsOffset += uint(partOfRawLength & 0x7)
@@ -301,7 +302,7 @@ func (pd *perRawBitData) appendOctetString(bytes []byte, extensive bool, lowerBo
 
 	var byteOffset, partOfRawLength uint64
 	for {
-		if rawLength > 65536 {
+		if rawLength >= 65536 {
 			partOfRawLength = 65536
 		} else if rawLength >= 16384 {
 			partOfRawLength = rawLength & 0xc000
@@ -322,7 +323,8 @@ func (pd *perRawBitData) appendOctetString(bytes []byte, extensive bool, lowerBo
 		perTrace(2, fmt.Sprintf("Encoded OCTET STRING (length = %d): 0x%0x", partOfRawLength,
 			bytes[byteOffset:byteOffset+partOfRawLength]))
 		rawLength -= (partOfRawLength - uint64(lb))
-		if rawLength > 0 {
+		if rawLength > 0 || partOfRawLength-uint64(lb) >= 16384 {
+			// X.691 11.9.3.8: a fragment is always followed by a further length, 0 when nothing is left
 			byteOffset += partOfRawLength
 		} else {
 			// pd.appendAlignBits()
@@ -576,7 +578,7 @@ func (pd *perRawBitData) appendOpenType(v reflect.Value, params fieldParameters)
 
 	var byteOffset, partOfRawLength uint64
 	for {
-		if rawLength > 65536 {
+		if rawLength >= 65536 {
 			partOfRawLength = 65536
 		} else if rawLength >= 16384 {
 			partOfRawLength = rawLength & 0xc000
@@ -596,7 +598,8 @@ func (pd *perRawBitData) appendOpenType(v reflect.Value, params fieldParameters)
 		perTrace(2, fmt.Sprintf("Encoded OpenType RawData (length = %d): 0x%0x", partOfRawLength,
 			openTypeBytes[byteOffset:byteOffset+partOfRawLength]))
 		rawLength -= partOfRawLength
-		if rawLength > 0 {
+		if rawLength > 0 || partOfRawLength >= 16384 {
+			// X.691 11.9.3.8: a fragment is always followed by a further length, 0 when nothing is left
 			byteOffset += partOfRawLength
 		} else {
 			pd.appendAlignBits()
